@@ -26,6 +26,7 @@ import inspect
 from pathlib import Path
 from types import ModuleType, FrameType
 from typing import Optional
+import pydantic
 
 from .datatype import datatype, AllowArbConfig
 
@@ -63,7 +64,8 @@ def source_info(get_pymodule: bool = False) -> Optional[SourceInfo]:
     for _ in range(MAX_DEPTH):
         if frame is None:
             return None
-        if frame.f_code.co_filename not in files_to_skip:
+        filename = frame.f_code.co_filename
+        if filename not in files_to_skip and not filename.startswith(_pydantic_dir):
             # We've got a hit! Return a `SourceInfo` object.
 
             # If requested via the `get_pymodule` flag, return the Python module.
@@ -81,6 +83,10 @@ def source_info(get_pymodule: bool = False) -> Optional[SourceInfo]:
     # If we got here without returning, we failed.
     raise RecursionError("Error finding `SourceDetail`")
 
+
+# Several of our types (e.g. `Generator`, `ExternalModule`) are pydantic dataclasses, created through pydantic's own `__init__`.
+# Those frames are not where anything was defined either.
+_pydantic_dir = str(Path(pydantic.__file__).parent)
 
 # Set of files to skip
 # Calculated once, after import-time, so those modules can import this one.
